@@ -39,6 +39,10 @@ Audit extension (strata added after the coverage audit; each has its own counter
                     client['name'] / ['protocol'] / ['ip'] / ['auth'] recorded by the edge vs what the relay was
                     configured with (ehlo_as string or callable, TLS, AUTH, HELO fall-back); LHLO name for LMTP;
                     X-Ehlo as shown to WsgiValidators.  Judged: WsgiValidators see the same sender / recipients
+  chunked           every socket of the hop (relay side and edge side; SMTP, LMTP relay side, HTTP both sides, TLS
+                    included) returns at most N bytes per recv()/recv_into(), N in 1, 3, 7, 16, 61: every designed
+                    case once more with a seeded N, every SMTP / LMTP configuration with N = 1, 7, 16, 10 % of the
+                    random cases; same oracles (multi-line EHLO/LHLO replies, replies and data arrive in many reads)
   extensions        arbitrary extra keywords (hyphenated names, multi-word / numeric parameters), a server whose
                     table changes after STARTTLS (pre-TLS-only keyword, AUTH and a different SIZE after TLS), three
                     connections of one relay to servers with different tables (tables compared per connection;
@@ -52,6 +56,7 @@ import traceback
 
 import gevent
 from gevent import socket as gsocket
+from gevent import ssl as gssl
 
 from pysasl.identity import ClearIdentity
 
@@ -70,7 +75,7 @@ from slimta.relay.smtp import SmtpRelayError
 from slimta.relay.smtp.static import StaticSmtpRelay, StaticLmtpRelay
 from slimta.relay.smtp.client import SmtpRelayClient
 from slimta.relay.smtp.lmtpclient import LmtpRelayClient
-from slimta.relay.http import HttpRelay
+from slimta.relay.http import HttpRelay, HttpRelayClient
 from slimta.envelope import Envelope
 from slimta.queue import QueueError
 
@@ -105,7 +110,9 @@ RULE = ('case = one relay+edge pair (transport x server configuration) and 1 or 
         'as QueueError with/without reply and as RelayError, reply texts with quotes / semicolons / back-slashes / '
         'latin-1 / non-latin-1 / several lines / empty / long, Reply.command as str or bytes; extra extension '
         'keywords, table change after STARTTLS, three connections to servers with different tables; ehlo_as and '
-        'credentials as callables, tls_required; WsgiValidators recording what the HTTP edge shows them. '
+        'credentials as callables, tls_required; WsgiValidators recording what the HTTP edge shows them; a '
+        'transport delivering at most 1 / 3 / 7 / 16 / 61 bytes per read in both directions (all designed cases '
+        'again, every SMTP / LMTP configuration with 1, 7, 16, 10 % of the random cases). '
         'non-trivial = a hop whose envelope has an address needing quoting / UTF-8 / null sender, or >= 2 '
         'recipients, or whose server has a non-default extension set; distinct by (transport, address class set, '
         'extension/config set, body class)')
@@ -160,7 +167,7 @@ REQUIRED_HITS = ['smtp-hop-delivered', 'http-hop-delivered', 'lmtp-hop-delivered
                  'many-recipients-hop', 'long-line-hop', 'big-body-hop', 'odd-header-block-hop',
                  'queue-relay-error-judged', 'reply-text-class-judged',
                  'extra-extensions-compared', 'post-tls-extensions-compared', 'multi-connection-extensions-compared',
-                 'http-validators-compared']
+                 'http-validators-compared', 'chunked-transport-hop', 'chunked-extensions-compared']
 SHARDS = {'quick': 10, 'thorough': 16}
 BUDGET = {'quick': 55, 'thorough': 800}
 EXHAUSTIVE = {'quick': False, 'thorough': False}
@@ -241,15 +248,75 @@ def _hook_hub():
 _ctx = {}
 
 
+# ---- a transport that delivers few bytes per read (stratum 'chunked'): every socket the harness hands to the relay
+#      clients and to the edges is of these classes; recv()/recv_into()/read() return at most _CHUNK[0] bytes while
+#      that is set (one case runs at a time), and behave like the plain gevent classes otherwise.
+_CHUNK = [None]
+CHUNK_SIZES = [1, 3, 7, 16, 61]
+
+
+class ChunkSocket(gsocket.socket):
+
+    def recv(self, bufsize, flags=0):
+        n = _CHUNK[0]
+        return gsocket.socket.recv(self, min(bufsize, n) if n else bufsize, flags)
+
+    def recv_into(self, buffer, nbytes=0, flags=0):
+        n = _CHUNK[0]
+        if n:
+            nbytes = min(nbytes or len(buffer), n)
+        return gsocket.socket.recv_into(self, buffer, nbytes, flags)
+
+
+class ChunkSSLSocket(gssl.SSLSocket):
+
+    def read(self, nbytes=2014, buffer=None):
+        n = _CHUNK[0]
+        if n:
+            nbytes = min(nbytes if nbytes else (len(buffer) if buffer is not None else n), n)
+        return gssl.SSLSocket.read(self, nbytes, buffer)
+
+
+class ChunkContext(gssl.SSLContext):
+    __slots__ = ()
+    sslsocket_class = ChunkSSLSocket
+
+
+def to_chunk(sock):
+    """The same connection as a ChunkSocket (the original object is detached)."""
+    if isinstance(sock, (ChunkSocket, gssl.SSLSocket)):
+        return sock
+    return ChunkSocket(sock.family, sock.type, sock.proto, fileno=sock.detach())
+
+
+def chunk_create_connection(*args, **kwargs):
+    return to_chunk(gsocket.create_connection(*args, **kwargs))
+
+
+def chunk_handle(server):
+    """gevent server: every accepted plain socket becomes a ChunkSocket (TLS ones are made by ChunkContext)."""
+    inner = server.handle
+
+    def handle(sock, address):
+        return inner(to_chunk(sock), address)
+    server.handle = handle
+
+
 def server_ctx():
     if 's' not in _ctx:
-        _ctx['s'] = vtls.server_context()
+        cert, key = vtls.cert_files()
+        ctx = ChunkContext(gssl.PROTOCOL_TLS_SERVER)
+        ctx.load_cert_chain(cert, key)
+        _ctx['s'] = ctx
     return _ctx['s']
 
 
 def client_ctx():
     if 'c' not in _ctx:
-        _ctx['c'] = vtls.client_context()
+        ctx = ChunkContext(gssl.PROTOCOL_TLS_CLIENT)
+        ctx.check_hostname = False
+        ctx.verify_mode = gssl.CERT_NONE
+        _ctx['c'] = ctx
     return _ctx['c']
 
 
@@ -902,7 +969,7 @@ def force_script(rnd, transport, cfg, msg, script, reply):
     return msg
 
 
-def all_cases(tier, seed):
+def designed_cases():
     n = 0
     # designed grid: every configuration x every hand-written address class (plain body), un-scripted
     for transport, grid in (('smtp', SMTP_GRID), ('lmtp', LMTP_GRID), ('http', HTTP_GRID)):
@@ -1001,9 +1068,52 @@ def all_cases(tier, seed):
                     force_script(rnd, 'smtp', cfg, m, list(script), {'text': text, 'cmd': None})
                 yield c
                 n += 1
+
+
+def case_bytes(case):
+    return sum(len(m['data']) + 40 * len(m['rcpts']) for m in case['msgs'])
+
+
+def chunk_for(rnd, case, sizes=None):
+    """A read size for the 'chunked' stratum; one-byte reads only where the traffic is small (cost)."""
+    total = case_bytes(case)
+    sizes = sizes or CHUNK_SIZES
+    ok = [x for x in sizes if total / x <= 6000] or [max(sizes)]
+    return rnd.choice(ok)
+
+
+def all_cases(tier, seed):
+    n = 0
+    for case in designed_cases():
+        yield case
+        n = case['n'] + 1
+    # ---- stratum 'chunked': a transport that delivers at most N bytes per read, in both directions.
+    # every designed case once more with a seeded N
+    for case in designed_cases():
+        rnd = random.Random('c06-chunk-%d-%d' % (seed, n))
+        yield dict(case, n=n, chunk=chunk_for(rnd, case))
+        n += 1
+    # the extension-table cases (every configuration, plain envelope) with N = 1, 7, 16
+    for transport, grid in (('smtp', SMTP_GRID), ('lmtp', LMTP_GRID)):
+        for label, cfg in grid:
+            for size in (1, 7, 16):
+                rnd = random.Random('c06-chunk-ext-%d' % n)
+                c = make_case(rnd, n, transport, label, cfg, [GRID_ADDRS[0]], ['plain'], scripted=False)
+                c['chunk'] = size
+                yield c
+                n += 1
     # seeded random
     for i in range(NRANDOM[tier]):
         rnd = random.Random('c06-%d-%d' % (seed, i))
+        for case in random_case(rnd, n):
+            if rnd.random() < 0.1:
+                case['chunk'] = chunk_for(rnd, case)
+            yield case
+        n += 1
+
+
+def random_case(rnd, n):
+    if True:
         r = rnd.random()
         if r < 0.68:
             if rnd.random() < 0.6:
@@ -1259,6 +1369,7 @@ class SmtpLab(Lab):
 
     def creator(self, address):
         a, b = gsocket.socketpair()
+        a, b = to_chunk(a), to_chunk(b)
         self.sock_conn[id(a)] = self.sock_conn[id(b)] = self.conns
         self.conns += 1
         self.greenlets.append(gevent.spawn(self.edge.handle, b, ('127.0.0.1', 1234)))
@@ -1336,7 +1447,7 @@ class LmtpLab(Lab):
 
     def creator(self, address):
         self.conns += 1
-        return self.ds.creator(address)
+        return to_chunk(self.ds.creator(address))      # the relay's side; the independent server reads as it likes
 
     def expected_views(self):
         cfg = self.cfg
@@ -1373,6 +1484,7 @@ def http_server(https):
         edge = WsgiEdge(None, hostname='edge.test')
         ssl_args = {'ssl_context': server_ctx()} if https else None
         server = edge.build_server(('127.0.0.1', 0), None, ssl_args)
+        chunk_handle(server)
         server.log = None
         try:
             from gevent.pywsgi import _NoopLog
@@ -1385,6 +1497,21 @@ def http_server(https):
     return _http[key]
 
 
+class ChunkHttpRelayClient(HttpRelayClient):
+    """The real client; its connection object opens ChunkSockets (http.client's documented _create_connection hook
+    that slimta.http itself sets)."""
+
+    def _new_conn(self):
+        HttpRelayClient._new_conn(self)
+        self.conn._create_connection = chunk_create_connection
+
+
+class ChunkHttpRelay(HttpRelay):
+
+    def add_client(self):
+        return ChunkHttpRelayClient(self)
+
+
 class HttpLab(Lab):
 
     def __init__(self, cfg):
@@ -1395,6 +1522,7 @@ class HttpLab(Lab):
             self.own = WsgiEdge(self.capq, hostname='edge.test', listener=('127.0.0.1', 0),
                                 context=server_ctx() if cfg['https'] else None)
             self.edge, self.server = self.own, self.own.server
+            chunk_handle(self.server)
             self.own.start()
             for _ in range(200):
                 if getattr(self.server, 'started', False):
@@ -1408,8 +1536,8 @@ class HttpLab(Lab):
             self.edge.validator_class = make_wsgi_validators(self)
         url = '%s://127.0.0.1:%d/deliver' % ('https' if cfg['https'] else 'http', port)
         ehlo = (lambda: EHLO_FN_NAME) if cfg.get('ehlo_fn') else 'relay.test'     # documented: called without arguments
-        self.relay = HttpRelay(url, pool_size=1, context=client_ctx() if cfg['https'] else None,
-                               ehlo_as=ehlo, timeout=15, idle_timeout=5.0 if cfg['reuse'] else None)
+        self.relay = ChunkHttpRelay(url, pool_size=1, context=client_ctx() if cfg['https'] else None,
+                                    ehlo_as=ehlo, timeout=15, idle_timeout=5.0 if cfg['reuse'] else None)
 
     def close(self):
         try:
@@ -1599,6 +1727,9 @@ class Judge(object):
         bclass = body_class(orig.partition(b'\r\n\r\n')[2])
         R.hit('sender-compared')
         hclass = header_class(bytes(msg['data']))
+        if self.case.get('chunk'):
+            R.hit('chunked-transport-hop')
+            R.count('chunked-hop/%s/%d-bytes-per-read' % (t, self.case['chunk']))
         if len(msg['rcpts']) >= 60:
             R.hit('many-recipients-hop')
         if 'line>998' in bclass or 'line>998' in hclass:
@@ -1705,6 +1836,8 @@ class Judge(object):
             by_conn_a = dict((k, configured_of(k)) for k in range(nconn))
         cfg = self.cfg
         R.hit('extensions-compared', len(views))
+        if self.case.get('chunk'):
+            R.hit('chunked-extensions-compared', len(views))
         if cfg.get('add') or (t == 'lmtp' and self.case['label'] == 'lmtp-odd-exts'):
             R.hit('extra-extensions-compared')
         if t == 'smtp' and cfg.get('post_tls') and cfg['tls'] is True:
@@ -1787,7 +1920,7 @@ def nontrivial_key(case, m, orig):
     nt = any(needs_care(a) or a == '' for a in [m['sender']] + m['rcpts']) or len(m['rcpts']) >= 2 or \
         not default_cfg(t, cfg)
     key = (t, tuple(classes), ext_key(t, cfg), body_class(orig.partition(b'\r\n\r\n')[2]), header_class(orig),
-           min(len(m['rcpts']), 60))
+           min(len(m['rcpts']), 60), case.get('chunk') or 0)
     return nt, key
 
 
@@ -2272,6 +2405,7 @@ def run_case(case, R):
         for k, v in smtp_cfg().items():
             cfg.setdefault(k, v)
     case = dict(case, cfg=cfg)
+    _CHUNK[0] = case.get('chunk') or None
     try:
         lab = {'smtp': SmtpLab, 'lmtp': LmtpLab, 'http': HttpLab}[t](cfg)
     except Exception as e:
@@ -2296,3 +2430,4 @@ def run_case(case, R):
         R.count('hops/%s' % t, len(runs))
     finally:
         lab.close()
+        _CHUNK[0] = None
